@@ -70,5 +70,6 @@ var genericCmds = map[string]func(common.Args, *common.Out) error{
 	"curvereplay": generic.CurveReplay,
 	"sigreplay":   generic.SigReplay,
 	"curvehints":  generic.CurveHints,
+	"curvespecial": generic.CurveSpecial,
 	"c17replay":   rec.Replay,
 }
